@@ -260,8 +260,11 @@ def dialCert (n kind : String) : Option ServerCert := do
   | _ => none
 
 /-- `<node>:<kind>`: n = by name over IPv4, i = IPv4 literal without hostname, 6 = IPv6 literal without hostname,
-    m = by name over IPv6, x = no valid connect address, z = port 0, f = nobody listens on the port -/
-def parseDialTry (certA certB : String) (s : String) : Option DialTry :=
+    m = by name over IPv6, x = no valid connect address, z = port 0, f = nobody listens on the port; a trailing `!` =
+    the caller's VerifyConnection callback (if SslOpts.Config is given) rejects this dial -/
+def parseDialTry (certA certB : String) (s0 : String) : Option DialTry :=
+  let veto := s0.endsWith "!"
+  let s := if veto then (s0.dropEnd 1).toString else s0
   match s.splitOn ":" with
   | [n, k] => do
     let name ← nodeName n
@@ -269,13 +272,13 @@ def parseDialTry (certA certB : String) (s : String) : Option DialTry :=
     let p4 := strBytes (if n == "a" then "9042" else "9043")
     let p6 := strBytes (if n == "a" then "9046" else "9047")
     match k with
-    | "n" => some ⟨⟨name, some loopback, p4⟩, true, cert⟩
-    | "i" => some ⟨⟨[], some loopback, p4⟩, true, cert⟩
-    | "6" => some ⟨⟨[], some loopback6, p6⟩, true, cert⟩
-    | "m" => some ⟨⟨name, some loopback6, p6⟩, true, cert⟩
-    | "x" => some ⟨⟨name, none, p4⟩, true, cert⟩
-    | "z" => some ⟨⟨name, some loopback, strBytes "0"⟩, true, cert⟩
-    | "f" => some ⟨⟨name, some loopback, strBytes "9049"⟩, false, cert⟩
+    | "n" => some ⟨⟨name, some loopback, p4⟩, true, cert, veto⟩
+    | "i" => some ⟨⟨[], some loopback, p4⟩, true, cert, veto⟩
+    | "6" => some ⟨⟨[], some loopback6, p6⟩, true, cert, veto⟩
+    | "m" => some ⟨⟨name, some loopback6, p6⟩, true, cert, veto⟩
+    | "x" => some ⟨⟨name, none, p4⟩, true, cert, veto⟩
+    | "z" => some ⟨⟨name, some loopback, strBytes "0"⟩, true, cert, veto⟩
+    | "f" => some ⟨⟨name, some loopback, strBytes "9049"⟩, false, cert, veto⟩
     | _ => none
   | _ => none
 
@@ -454,7 +457,7 @@ def step (_ : Unit) (ws : List String) : Unit × String :=
             | .caller => "none"
             | .dflt _ none => "none"
             | .dflt _ (some t) =>
-              if dialFinal wrapCode (trustOf op.c) (some t) (op.dials.map (·.2)) = some t then "same" else "ALIAS"
+              if dialFinal wrapCode (trustOf op.c) (cbOf op.c) (some t) (op.dials.map (·.2)) = some t then "same" else "ALIAS"
           " | ".intercalate ((op.dials.zip obs).map (fun (d, o) => d.1 ++ " " ++ showDialObs op.c o)) ++ " || shared=" ++ shared
     | none => "bad-op"
   -- C20_every_dialer / C20_tls_per_dial: the SPECIFICATION side (Spec.dialDemand: TLS on every connection the driver
@@ -467,7 +470,7 @@ def step (_ : Unit) (ws : List String) : Unit × String :=
       | _ =>
         if op.dials.any (fun d => d.2.host.ip.isNone || d.2.host.port == strBytes "0" || !d.2.dialOk) then "bad-op" else
         " | ".intercalate (op.dials.map (fun d =>
-          let e := Spec.dialDemand op.c.ssl d.2.host.name d.2.cert
+          let e := Spec.dialDemand op.c.ssl d.2.host.name d.2.cert d.2.veto
           s!"{d.1} wrapped={bit e.wrapped} proceeded={bit e.proceeded}"))
     | none => "bad-op"
   -- credentials never show up in what the driver logs or reports (monitor evaluated by the harness on the logger
